@@ -592,6 +592,16 @@ def check(ctx):
         for hf_ in [k for k in P.fns if k.endswith("GenerationCache::" + n_)]:
             drops = sorted({c.name for k2 in P.family(hf_) if "{promoted" not in k2 for c in P.fns[k2].calls if c.bb in P.fns[k2].reach_blocks and c.name in DROPPERS
                             and not c.path.startswith("serde")})
+            # ... nor cuts a text on its way into the serialised view (`Result<T, E>` reduced to `T`, a path reduced to its last segment): the
+            # generators read the whole text, and a cut that is right for the usual spelling is wrong for the next one (a one-argument alias)
+            CUTTERS = {"strip_prefix", "strip_suffix", "split_once", "rsplit_once", "split", "rsplit", "splitn", "rsplitn", "trim_start_matches", "trim_end_matches",
+                       "trim_matches", "split_at", "split_terminator", "split_whitespace", "get", "get_unchecked", "chars", "char_indices", "bytes", "truncate", "replace",
+                       "replacen", "to_lowercase", "to_uppercase", "to_ascii_lowercase", "to_ascii_uppercase"}
+            cuts = sorted({c.name for k2 in P.family(hf_) if "{promoted" not in k2 for c in P.fns[k2].calls if c.bb in P.fns[k2].reach_blocks and c.name in CUTTERS
+                           and re.match(r"(core|std|alloc)::str::|str::|<str|std::string::String::|String::", strip_generics(c.path).replace("<impl ", ""))})
+            if cuts:
+                r1b.bad(V(r1b.id, hf_, "digest-cuts-text:%s" % ",".join(cuts), "%s takes text apart (%s) before hashing it: two inputs that differ only in the part that is "
+                          "cut away get the same digest although generation reads the whole text" % (n_, ", ".join(cuts))))
             if drops:
                 r1b.bad(V(r1b.id, hf_, "digest-drops-elements:%s" % ",".join(drops),
                           "%s passes its input through %s: elements that are dropped, merged or overwritten there do not reach the digest although generation reads them" % (n_, ", ".join(drops))))
@@ -740,6 +750,35 @@ def check(ctx):
                      "equality with what is on disk (%s): a skipped write leaves stale content while the run reports success and records the digest" % why_))
         else:
             r2.ok("write_typescript_file: %s (%s)" % (st_, why_))
+    # ... and the existence check covers every file a generation writes: each output name a reachable writer uses (the FileWriter::write_*_file
+    # names, and names joined onto the output directory in a function that writes) is among the names the cache check demands (the converse —
+    # every demanded name is written by somebody — is C14-D4's)
+    FILE_RX = re.compile(r"^[\w.-]+\.(ts|txt|dot|js)$")
+    written = {}
+    for fid_ in sorted(reach):
+        g_ = P.fns.get(fid_)
+        if g_ is None or "{promoted" in fid_ or "::generation_cache::" in fid_:
+            continue
+        is_fw = bool(re.search(r"FileWriter::write_\w+_file$", short_path(fid_)))
+        writes_here = any(strip_generics(c_.path) in ("std::fs::write", "std::fs::File::create") for c_ in g_.calls if c_.bb in g_.reach_blocks)
+        if not (is_fw or writes_here):
+            continue
+        for c_ in g_.calls:
+            if c_.bb in g_.reach_blocks and (c_.name == "join" or is_fw):
+                for i_ in range(len(c_.args)):
+                    s_ = c_.arg_str(i_)
+                    if s_ and FILE_RX.match(s_):
+                        written.setdefault(s_, short_path(fid_))
+    vouch = [k for k in sorted(P.fns) if "::GenerationCache::" in k and "{promoted" not in k and "::{closure" not in k
+             and any(strip_generics(c_.path) in EXIST_CHECKS for kk in P.family(k) if "{promoted" not in kk for c_ in P.fns[kk].calls)]
+    demanded = {x for k in vouch for kk in P.family(k) if "{promoted" not in kk for x in P.fns[kk].const_strs() if FILE_RX.match(x)}
+    if vouch and demanded:
+        for nm_ in sorted(written):
+            if nm_ in demanded:
+                r2.ok("the existence check demands %s (written by %s)" % (nm_, written[nm_]))
+            else:
+                r2.bad(V(r2.id, vouch[0], "written-file-not-demanded:%s" % nm_, "%s writes `%s`, but the cache check does not require that file to exist before it answers "
+                         "'up to date': deleting it is not repaired by the next run" % (written[nm_], nm_)))
     rules.append(r2)
 
     # ---------------------------------------------------------------- D3
